@@ -711,6 +711,9 @@ func voxelRange(blockSize, begBlock, endBlock, begVoxel, endVoxel int32) (int32,
 // GetMask returns a binary volume of subvol size where each element is 1 if inside the ROI
 // and 0 if outside the ROI.
 func (d *Data) GetMask(ctx *datastore.VersionedCtx, subvol *dvid.Subvolume) ([]byte, error) {
+	if subvol.NumVoxels() > math.MaxInt32 {
+		return nil, fmt.Errorf("mask of size %s is too large for one request", subvol.Size())
+	}
 	pt0 := subvol.StartPoint()
 	pt1 := subvol.EndPoint()
 	// floor division, so masks over negative coordinates find the spans of their blocks
